@@ -27,10 +27,14 @@ class SMToBMS(ConvertBase):
             )
             bms.bpms = cls.cast(sm.bpms, BMSBpmList, dict(offset="offset", bpm="bpm"))
 
-            bms.title = codecs.encode(sms.title, encoding="shift_jis")
-            bms.artist = codecs.encode(sms.artist, encoding="shift_jis")
+            bms.title = codecs.encode(sms.title, encoding="shift_jis", errors="replace")
+            bms.artist = codecs.encode(
+                sms.artist, encoding="shift_jis", errors="replace"
+            )
             bms.version = codecs.encode(
-                f"{sm.difficulty} {sm.difficulty_val}", encoding="shift_jis"
+                f"{sm.difficulty} {sm.difficulty_val}",
+                encoding="shift_jis",
+                errors="replace",
             )
 
             bmss.append(bms)
